@@ -137,7 +137,15 @@ def p_warned(I, a, n):
     return mk_bool(len(I.path.warn_log) > 0)
 
 
-PRIMS = {'be': p_be, 'le': p_le, 'sl': p_sl, 'cat': p_cat, 'low': p_low, 'shr': p_shr, 'pow2': p_pow2, 'tb': p_tb,
+def p_src_T(I, a, n):
+    return a[0].extra['T']
+
+
+def p_src_R(I, a, n):
+    return a[0].extra['R']
+
+
+PRIMS = {'src_T': p_src_T, 'src_R': p_src_R, 'be': p_be, 'le': p_le, 'sl': p_sl, 'cat': p_cat, 'low': p_low, 'shr': p_shr, 'pow2': p_pow2, 'tb': p_tb,
          'tl': p_tl, 'bat': p_bat, 'rpow': p_rpow, 'rpow2': p_rpow2, 'bfind': p_bfind, 'band': p_band, 'bor': p_bor,
          'toreal': p_toreal, 'i2r': p_toreal, 'at': p_at, 'append': p_append, 'is_int_valued': p_is_int_valued,
          'decode': p_decode, 'decodable': p_decodable, 'cls_is': p_cls_is, 'warned': p_warned}
